@@ -4,4 +4,4 @@
 package linker
 
 func verifFileKey(c *linkerContext, sourceIndex uint32) string { return "" }
-func verifChunkKey(c *linkerContext, chunkIndex int) string     { return "" }
+func verifChunkKey(c *linkerContext, chunkIndex int) string    { return "" }
